@@ -12,7 +12,7 @@ import (
 	"pgregory.net/rapid"
 )
 
-var members = append([]string{"chain", "chain", "jitterbuffer"}, kit.AllNames...)
+var members = append([]string{"chain", "chain", "chain-jb", "chain-jb", "jitterbuffer"}, kit.AllNames...)
 
 // genRTPIn draws incoming RTP byte strings: valid packets, truncations at every boundary, bit flips, raw bytes.
 func genRTPIn(t *rapid.T) []byte {
@@ -188,6 +188,11 @@ func genRTCPIn(t *rapid.T) (raw []byte, class string) { //nolint:cyclop
 func genCase(t *rapid.T) (*Case, []string) {
 	c := &Case{Member: rapid.SampledFrom(members).Draw(t, "member"), History: rapid.IntRange(0, 8).Draw(t, "history"), Dirty: byte(rapid.SampledFrom([]int{0, 0xA5, 0xFF}).Draw(t, "dirty"))}
 	var classes []string
+	if c.Member == "chain-jb" {
+		c.Order = rapid.Uint64Range(1, 1<<62).Draw(t, "order")
+		c.History = rapid.IntRange(50, 70).Draw(t, "jbHistory") // the buffer is emitting when the generated packets arrive
+		classes = append(classes, "chain-around-jitterbuffer")
+	}
 	if c.Member == "chain" && rapid.Bool().Draw(t, "shuffled") {
 		c.Order = rapid.Uint64Range(1, 1<<62).Draw(t, "order")
 		classes = append(classes, "shuffled-chain")
